@@ -18,3 +18,9 @@ package crypto
 //@   ensures[C12] result <==> (v <= 1 && 1 <= big(r) && big(r) < SECP_N && 1 <= big(s) && big(s) < SECP_N && (homestead ==> big(s) <= SECP_HALFN))
 //@   assigns nothing
 //@   nopanic[C12]
+
+// Trusted library contract: hashing (sha3 sponge) reads its inputs and writes nothing the
+// caller can see; the digest value is left uninterpreted.
+//@ func Keccak256Hash
+//@   trusted
+//@   assigns nothing
